@@ -740,7 +740,7 @@ Proof.
   { unfold own_list, pcl. rewrite Hpc. reflexivity. }
   assert (OLR : own_list (with_pc T QRead) = hd T :: pushed (prog T)) by reflexivity.
   assert (HdW : forall n, In n (own_list T) -> n <> hd T).
-  { intros n Hn E. destruct (Onq t n Hn) as [_ Q]. apply (Q q (lo x q)); auto; [lia|congruence]. }
+  { intros n Hn E. destruct (Onq t n Hn) as [_ Q]. apply (Q q (lo x q) Qn); [specialize (Go q Qn); lia|congruence]. }
   assert (InR : forall n, In n (own_list (with_pc T QRead)) -> n = hd T \/ In n (own_list T)).
   { intros n. rewrite OLR, OLT. intros [H|H]; auto. }
   set (lo' := upd (lo x) q (S (lo x q))).
@@ -768,7 +768,7 @@ Proof.
   - intros q' i Hq Hi. apply Gd; auto. destruct (Nat.eq_dec q' q) as [->|Nq]; [rewrite LoQ in Hi|rewrite LoX in Hi by assumption]; lia.
   - intros u. destruct (Nat.eq_dec u t) as [->|Hne].
     + rewrite upd_same. unfold local_ok. cbn [pc with_pc base nodeat valat lo hn dat qi]. fold q lo'. rewrite LoQ.
-      split; auto. rewrite L2. apply Gd; auto. lia.
+      split; auto. rewrite L2. apply Gd; auto; lia.
     + rewrite upd_other by assumption. assert (Lu := Gloc u). unfold local_ok, cnt_ok in *.
       destruct (Gc u ltac:(lia)) as [Pu _].
       destruct (pc (thr s u)) eqn:Hu;
@@ -798,9 +798,9 @@ Proof.
     intros H. apply (HdW (hd T)); auto. rewrite OLT. exact H.
   - intros u v n. thr_cases u t; thr_cases v t; intros H1 H2; auto.
     + destruct (InR n H1) as [->|H1']; [|apply (Odj t v n); auto].
-      exfalso. destruct (Onq v _ H2) as [_ Q]. apply (Q q (lo x q)); auto; [lia|congruence].
+      exfalso. destruct (Onq v _ H2) as [_ Q]. apply (Q q (lo x q) Qn); [specialize (Go q Qn); lia|congruence].
     + destruct (InR n H2) as [->|H2']; [|apply (Odj u t n); auto].
-      exfalso. destruct (Onq u _ H1) as [_ Q]. apply (Q q (lo x q)); auto; [lia|congruence].
+      exfalso. destruct (Onq u _ H1) as [_ Q]. apply (Q q (lo x q) Qn); [specialize (Go q Qn); lia|congruence].
     + apply (Odj u v n); auto.
   - intros u n. thr_cases u t; intros H1.
     + destruct (InR n H1) as [->|H1'].
